@@ -12,7 +12,7 @@
 import ast
 
 from .common import (AnalysisError, Finding, RuleResult, MustFlow, ntext, walk_no_nested,
-                     body_stmts, is_self_attr)
+                     body_stmts, is_self_attr, expand_locals)
 
 RULE = 'R17'
 TEXT = ('solution values are read only behind a not-None test (objval returned only behind a NaN '
@@ -109,6 +109,12 @@ def mul_count(expr, pred):
         return mul_count(expr.left, pred) + mul_count(expr.right, pred)
     if isinstance(expr, ast.UnaryOp):
         return mul_count(expr.operand, pred)
+    if isinstance(expr, ast.Subscript):
+        # selecting entries commutes with scaling:  (y * s)[idx]  ==  y[idx] * s
+        return mul_count(expr.value, pred) if not pred(expr) else 1
+    if isinstance(expr, ast.Call) and isinstance(expr.func, ast.Attribute) and \
+            expr.func.attr in ('reshape', 'flatten', 'ravel', 'copy', 'item', 'squeeze'):
+        return mul_count(expr.func.value, pred)
     return 1 if pred(expr) else 0
 
 
@@ -233,11 +239,18 @@ def run(repo):
     for fq in ('lp.LinConstr.dual', 'lp.Bounds.dual'):
         fi = repo.func(fq)
         res.functions.add(fq)
-        prods = [n for n in walk_no_nested(fi.node) if isinstance(n, ast.Assign)
+        prods = [n for n in walk_no_nested(fi.node) if isinstance(n, (ast.Assign, ast.Return)) and n.value is not None
                  and any(isinstance(x, ast.Subscript) and "y[" in ntext(x) for x in ast.walk(n.value))]
         ok = bool(prods)
         for p in prods:
-            ns = mul_count(p.value, lambda e: ntext(e) in ('self.model.sign', 'model.sign'))
+            val = expand_locals(fi.node, p.value)
+            ns = mul_count(val, lambda e: ntext(e) in ('self.model.sign', 'model.sign'))
+            if ns != 1:
+                # the sign may be applied to the selected entries in a later statement on the same local
+                tgt = p.targets[0].id if isinstance(p, ast.Assign) and isinstance(p.targets[0], ast.Name) else None
+                later = [m for m in walk_no_nested(fi.node) if isinstance(m, ast.Assign) and tgt is not None
+                         and any(isinstance(x, ast.Name) and x.id == tgt for x in ast.walk(m.value)) and m is not p]
+                ns += sum(mul_count(m.value, lambda e: ntext(e) in ('self.model.sign', 'model.sign')) for m in later)
             if ns != 1:
                 ok = False
         res.inst({'dual': fq, 'reads_of_y': len(prods), 'ok': ok}, ok)
